@@ -30,7 +30,12 @@ class FaultPlan:
         return None
 
     def err(self):
-        code = (self.fault or {}).get("errno", errno.EIO)
+        f = self.fault or {}
+        if f.get("exc") == "KeyboardInterrupt":
+            return KeyboardInterrupt("injected during a file operation")
+        if f.get("exc") == "SystemExit":
+            return SystemExit(3)
+        code = f.get("errno", errno.EIO)
         return OSError(code, _os.strerror(code) + " (injected)")
 
 
